@@ -76,6 +76,12 @@ pub fn probe_chain_first() -> bool {
 }
 
 thread_local! { static PAUSE: std::cell::Cell<u32> = std::cell::Cell::new(0); }
+// frame before which the user hot-swaps the governed animator's timeline (Animator::set_timeline) for a 0.25 s one
+thread_local! { static SWAP: std::cell::Cell<Option<usize>> = std::cell::Cell::new(None); }
+
+fn swap_timeline() -> CTimeline {
+    timeline_for(&Tm { cycle: 0.25, delay: 0.0, rep: Rp::None, reverse: false }, 1000.0, 2000.0, 100, 200)
+}
 
 #[derive(Default)]
 struct Acc {
@@ -136,7 +142,7 @@ fn observe(world: &World, e: Entity) -> Obs {
 }
 
 fn case_json(sched: &[f64], ent: &Ent) -> Value {
-    json!({"frame_deltas_s": sched, "key_assignment_before_each_frame": ent.assign.iter().map(|k| k.map(|k| format!("{k:?}"))).collect::<Vec<_>>(), "chain_map_index": ent.chain, "animator_disabled_before_frame_and_enabled_before_frame": ent.dis, "virtual_clock_paused_during_frames_bitmask": PAUSE.with(|p| p.get()),
+    json!({"frame_deltas_s": sched, "key_assignment_before_each_frame": ent.assign.iter().map(|k| k.map(|k| format!("{k:?}"))).collect::<Vec<_>>(), "chain_map_index": ent.chain, "animator_disabled_before_frame_and_enabled_before_frame": ent.dis, "virtual_clock_paused_during_frames_bitmask": PAUSE.with(|p| p.get()), "user_hot_swaps_timeline_before_frame": SWAP.with(|p| p.get()),
            "chain_map": chain_maps()[ent.chain].as_ref().map(|v| v.iter().map(|(a, b)| format!("{a:?}->{b:?}")).collect::<Vec<_>>()), "second_animated_component": ent.two,
            "keys": {"A": "0.5 s, x 10->20", "B": "0.5 s after 0.25 s, x 100->200", "C": "0.5 s infinite, x -10->-20", "N": "no timeline"}, "initial_key": if ent.chain % 2 == 1 { "B (AnimationSelectorBuilder::initial_key)" } else { "A (default)" }, "initial_component": {"x": 3.0, "n": 33, "y": 7.0}})
 }
@@ -149,6 +155,7 @@ fn run_schedule(sched: &[f64], assigns: &[Vec<Option<K>>], windows: &[Option<(us
 /// zero (`Time::delta()`), but the selector and the chain still work (events must not be lost).
 fn run_schedule_paused(sched: &[f64], assigns: &[Vec<Option<K>>], windows: &[Option<(usize, usize)>], pause_mask: u32, chain_first: bool, rank0: u64, acc: &mut Acc) {
     PAUSE.with(|p| p.set(pause_mask));
+    let swap_frame = SWAP.with(|p| p.get());
     let mut d = Driver::new(|app| {
         app.add_plugins((AnimationPlugin::<C>::new(), AnimationPlugin::<Q>::new()));
         app.register_animation_key::<C, K>();
@@ -196,7 +203,7 @@ fn run_schedule_paused(sched: &[f64], assigns: &[Vec<Option<K>>], windows: &[Opt
             d.set_paused(pause_mask & (1 << f) != 0);
         }
         let mut pre: Vec<Obs> = Vec::with_capacity(ents.len());
-        for ent in ents.iter() {
+        for ent in ents.iter_mut() {
             if let Some(Some(k)) = ent.assign.get(f) {
                 d.app.world.get_mut::<AnimationSelector<K, C>>(ent.e).unwrap().timeline_key = *k;
             }
@@ -207,6 +214,11 @@ fn run_schedule_paused(sched: &[f64], assigns: &[Vec<Option<K>>], windows: &[Opt
                 if f == f2 {
                     d.app.world.get_mut::<Animator<C>>(ent.e).unwrap().enabled = true;
                 }
+            }
+            // hot swap (documented: does not reset the animation state; the position carries over)
+            if swap_frame == Some(f) && ent.run_tl.is_some() {
+                d.app.world.get_mut::<Animator<C>>(ent.e).unwrap().set_timeline(swap_timeline());
+                ent.run_tl = Some(swap_timeline());
             }
             pre.push(observe(&d.app.world, ent.e));
         }
@@ -544,6 +556,27 @@ pub fn run(run: Run) -> ! {
     );
     let pause_apps = pausep.apps;
     merge(&mut acc, pausep);
+    // hot-swap pass: before frame 1, 2 or 3 the user replaces the governed animator's timeline by a shorter one
+    // (Animator::set_timeline, no reset); the animator then ends by ITS timeline and the chain must follow (S5)
+    let swapp = par_fold(
+        nsched * 3,
+        Acc::default,
+        |ii, acc| {
+            let (si, sf) = (ii / 3, ii % 3 + 1);
+            let mut sched = vec![];
+            let mut c = si;
+            for _ in 0..depth {
+                sched.push(DELTAS[c % 3]);
+                c /= 3;
+            }
+            SWAP.with(|p| p.set(Some(sf)));
+            run_schedule(&sched, &hdis, &[None], chain_first, (6u64 << 60) | (ii as u64) << 40, acc);
+            SWAP.with(|p| p.set(None));
+        },
+        merge,
+    );
+    let swap_apps = swapp.apps;
+    merge(&mut acc, swapp);
     // mirror pass over all schedules of length depth+2
     let mdepth = depth + 2;
     let mir = par_fold(
@@ -569,7 +602,7 @@ pub fn run(run: Run) -> ! {
     cov.insert("traces_validated_against_impl".into(), json!(acc.apps));
     cov.insert("evaluations".into(), json!(acc.rule_checks));
     cov.insert("distinct_nontrivial".into(), json!(acc.switches + acc.chain_fires));
-    cov.insert("rule".into(), json!(format!("real headless bevy App (AnimationPlugin<C>, AnimationPlugin<Q>, register_animation_key::<C,K>, hand-driven Time): ALL {} frame-delta schedules of length {} over {{1/4, 8, 0}} s x ALL {} key-assignment histories (before each frame: nothing or key := A|B|C|N, including the current key) x 7 chain maps (none, A->B, A->B+B->A, A->N, B->C, the self-maps A->A+B->B, reset_after(B)); initial key A (default) or B (builder) x {{one animated component, a second component Q with its own short animator}}; plus a deviation-bounded pass ({} schedules of {} frames, default delta 1/4, <= {} deviations) with <= 2 assignments; plus a disabled pass ({} Apps: all schedules x histories with <= 2 assignments x 4 windows of frames during which the governed animator is disabled: a key change made meanwhile re-targets and rewinds it at once and it plays once enabled; nothing else moves while disabled); plus a pause pass ({} Apps: Time::pause during one or two frames - the delta of those frames is zero, selector and chain keep working); plus a mirror pass ({} Apps: all schedules of length {}, entities whose OTHER animator is reset before every frame and therefore reports a state change in every frame, once with C governed / Q foreign and once with Q governed / C foreign, so that both orders of the two events occur whatever order the animate systems have in this process; S5/S6 only). Rules: S1 component unchanged in the frame a key change is acted on; S2 animation restarted from position 0 on the new key's timeline, thereafter the component equals that timeline started from the values at the switch; S3 key without timeline: state None, component frozen; S4 re-assigning the current key restarts nothing; S5 governed animator ended on k in frame f and chain(k)=k' and the user did not re-assign => key is k' in frame f+1; S6 the key changes only by assignment or S5 (the Ended must come from the governed animator and be applied to the key that ended). non-trivial = key changes acted on + chain moves", nsched, depth, hs.len(), dev_apps, horizon, k, dis_apps, pause_apps, mir_apps, mdepth)));
+    cov.insert("rule".into(), json!(format!("real headless bevy App (AnimationPlugin<C>, AnimationPlugin<Q>, register_animation_key::<C,K>, hand-driven Time): ALL {} frame-delta schedules of length {} over {{1/4, 8, 0}} s x ALL {} key-assignment histories (before each frame: nothing or key := A|B|C|N, including the current key) x 7 chain maps (none, A->B, A->B+B->A, A->N, B->C, the self-maps A->A+B->B, reset_after(B)); initial key A (default) or B (builder) x {{one animated component, a second component Q with its own short animator}}; plus a deviation-bounded pass ({} schedules of {} frames, default delta 1/4, <= {} deviations) with <= 2 assignments; plus a disabled pass ({} Apps: all schedules x histories with <= 2 assignments x 4 windows of frames during which the governed animator is disabled: a key change made meanwhile re-targets and rewinds it at once and it plays once enabled; nothing else moves while disabled); plus a pause pass ({} Apps: Time::pause during one or two frames - the delta of those frames is zero, selector and chain keep working); plus a hot-swap pass ({} Apps: before frame 1, 2 or 3 the user replaces the governed animator's timeline by a 0.25 s one with Animator::set_timeline - position and state carry over, the component follows the new timeline, the animator ends by it and the chain follows); plus a mirror pass ({} Apps: all schedules of length {}, entities whose OTHER animator is reset before every frame and therefore reports a state change in every frame, once with C governed / Q foreign and once with Q governed / C foreign, so that both orders of the two events occur whatever order the animate systems have in this process; S5/S6 only). Rules: S1 component unchanged in the frame a key change is acted on; S2 animation restarted from position 0 on the new key's timeline, thereafter the component equals that timeline started from the values at the switch; S3 key without timeline: state None, component frozen; S4 re-assigning the current key restarts nothing; S5 governed animator ended on k in frame f and chain(k)=k' and the user did not re-assign => key is k' in frame f+1; S6 the key changes only by assignment or S5 (the Ended must come from the governed animator and be applied to the key that ended). non-trivial = key changes acted on + chain moves", nsched, depth, hs.len(), dev_apps, horizon, k, dis_apps, pause_apps, swap_apps, mir_apps, mdepth)));
     cov.insert("exhaustive".into(), json!(true));
     cov.insert("apps".into(), json!(acc.apps));
     cov.insert("system_order_in_this_process".into(), json!(if chain_first { "chain_animations, select_animation, animate" } else { "select_animation, chain_animations, animate" }));
@@ -586,7 +619,9 @@ pub fn replay(case: &Value) -> bool {
     let mut acc = Acc::default();
     let dis = case["animator_disabled_before_frame_and_enabled_before_frame"].as_array().map(|a| (a[0].as_u64().unwrap() as usize, a[1].as_u64().unwrap() as usize));
     let mask = case["virtual_clock_paused_during_frames_bitmask"].as_u64().unwrap_or(0) as u32;
+    SWAP.with(|p| p.set(case["user_hot_swaps_timeline_before_frame"].as_u64().map(|x| x as usize)));
     run_schedule_paused(&sched, &[assign], &[dis], mask, probe_chain_first(), 0, &mut acc);
+    SWAP.with(|p| p.set(None));
     let want_chain = case["chain_map_index"].as_u64().unwrap_or(0);
     let want_two = case["second_animated_component"].as_bool().unwrap_or(false);
     let mut ok = true;
